@@ -97,6 +97,13 @@ add("lang", "block", "{ typedef int A%d[4]; const A%d ta%d = { 0 }; ta%d[1] = 2;
     "{ typedef int A%d[2][2]; const A%d tm%d = { { 0 } }; tm%d[1][1] = 2; }", "{ const struct hs *cp%d = gsp; (cp%d->arr + 1)[0]++; }")
 add("lang", "file", "int *bad%d(const struct hs *p) { return p->arr; }", "typedef int TA%d[3]; const TA%d cta%d; void st%d(void) { cta%d[0] = 1; }")
 
+# an array is initialised from a string literal only if the element types agree (6.7.9p14-15): same width is not enough
+add("lang", "file", "_Bool q%d[4] = \"abc\";", "_Bool q%d[] = u8\"ab\";", "short q%d[] = u\"ab\";", "int q%d[] = U\"ab\";", "unsigned q%d[] = L\"ab\";", "unsigned q%d[4] = L\"ab\";",
+    "struct { int k; short s[3]; } q%d = { 1, u\"ab\" };", "struct { _Bool b[4]; } q%d = { \"abc\" };", "int q%d[2][3] = { U\"ab\", U\"cd\" };", "enum he q%d[] = L\"ab\";",
+    "float q%d[] = U\"ab\";", "int *q%d[] = { U\"ab\" };"[:0] or "long q%d[] = L\"ab\";", "unsigned short q%d[] = \"ab\";", "char q%d[] = u\"ab\";", "unsigned char q%d[] = U\"a\";")
+add("lang", "block", "{ _Bool lb%d[4] = \"abc\"; }", "{ short ls%d[] = u\"ab\"; }", "{ int lw%d[] = U\"ab\"; }", "{ unsigned lu%d[3] = L\"ab\"; }", "{ static _Bool sb%d[] = \"a\"; }",
+    "{ struct { short s[3]; } lm%d = { u\"ab\" }; }")
+
 # ---- unsupported features ------------------------------------------------------------------------------------
 add("unsup", "file", "_Atomic int q%d;", "_Atomic(int) q%d;", "int _Atomic q%d;", "_Complex double q%d;", "double _Complex q%d;", "long double q%d = 1.0L;", "struct __attribute__((aligned(8))) ua%d { char c; };",
     "struct __attribute__((packed)) up%d { int a:3; };", "__attribute__((aligned(8))) int q%d;", "[[gnu::packed]] int q%d;", "__asm__(\"nop\");", "long double q%d(long double a) { return a + 1; }",
